@@ -22,6 +22,7 @@ void     sim_arm_delay(int offset, int len);
 void     sim_stats(unsigned long *steps, unsigned long *switches, int *nthr);
 void     sim_jumps(unsigned long *n, unsigned long *ms);
 long long sim_now_ms(void);
+void     sim_reset_mutex_table(void);
 
 // mock transport (mocktran.c)
 void mock_register(void);
